@@ -1247,13 +1247,18 @@ class VectorImpl : public VectorDestr<T, Alloc, SizeType, WithInlineElements, Gr
   void assign(size_type count, const_reference v) {
     if (this->size() < count) {
       const_reference newV = this->adjustCapacity(count, v);
-      fill(this->begin(), this->size(), count, newV);
+      const SizeType oldSize = this->size();
+      // construct the new elements first and make them part of the vector before assigning the existing ones:
+      // if an assignment throws, all 'count' elements are alive and owned
+      std::uninitialized_fill_n(end(), count - oldSize, newV);
+      this->setSize(count);
+      std::fill_n(this->begin(), oldSize, newV);
     } else {
       // copy to already existing elements and destroy remaining ones
       std::fill_n(this->begin(), count, v);
       amc::destroy_n(this->begin() + count, this->size() - count);
+      this->setSize(count);
     }
-    this->setSize(count);
   }
 
   /// Replaces the contents of the container.
